@@ -37,6 +37,14 @@ class Ctx:
         return len(self.docs) - 1
 
     def target(self, d, t):
+        if isinstance(t, (list, tuple)):
+            # ('inner', i): the i-th element that has element children (the one a 'detach' edit with index i extracts)
+            import bs4
+            els = self.els[d]
+            if not els:
+                return self.docs[d]
+            inner = [e for e in els if any(isinstance(c, bs4.Tag) for c in e.contents)] or els
+            return inner[t[1] % len(inner)]
         if t < 0 or not self.els[d]:
             return self.docs[d]
         return self.els[d][t % len(self.els[d])]
